@@ -116,9 +116,10 @@ func VerifH_C10_return() {
 
 // The real Serve, with all its goroutines as tasks, over a scripted socket:
 // requests on streams 1 and 3 whose handlers return at once or are still
-// running, then one of eight connection-scoped violations (the six above, DATA
-// on a stream the peer has already ended, and a stream window pushed past
-// 2^31-1 by a SETTINGS change after a WINDOW_UPDATE to exactly 2^31-1), then a
+// running, then one of ten connection-scoped violations (the six above, DATA
+// on a stream the peer has already ended, a stream window pushed past 2^31-1
+// by a SETTINGS change after a WINDOW_UPDATE to exactly 2^31-1, HEADERS on a
+// stream that has been used, RST_STREAM on an idle stream), then a
 // request on stream 11 from a peer that has not seen the GOAWAY yet. The
 // peer then stays connected and silent, or goes away. The GOAWAY covers every
 // dispatched request and carries a code the RFC allows, nothing is dispatched
@@ -128,7 +129,7 @@ func VerifH_C10_return() {
 //
 //verif:harness prop=C10,C17 unwind=300 timeout=900
 func VerifH_C10_serve() {
-	which := vRange(0, 7)
+	which := vRange(0, 9)
 	hold := vBool()
 	stays := vBool()
 
@@ -173,6 +174,10 @@ func VerifH_C10_serve() {
 		off = vFrame(0x8, 0x0, 1, []byte{0x7f, 0xff, 0x00, 0x00}) // 65535 + 0x7fff0000 = 2^31-1
 		off = append(off, vFrame(0x4, 0x0, 0, []byte{0, 4, 0, 1, 0, 0})...)
 		codes = []ErrorCode{FlowControlError}
+	case 8: // a second request on a stream that has been used (5.1, 5.1.1)
+		off, codes = vFrame(0x1, 0x5, 1, vReqBlock('1')), []ErrorCode{StreamClosedError, ProtocolError}
+	case 9: // RST_STREAM on a stream that was never opened (6.4)
+		off, codes = vFrame(0x3, 0x0, 9, []byte{0, 0, 0, 8}), []ErrorCode{ProtocolError}
 	default:
 		off, codes = vConnOffence(which)
 	}
